@@ -51,6 +51,13 @@ def run(ctx):
              floor=1)   # two today; merging them into a helper leaves one
     run.rule("C08.R5", "DataConversionError(caught exception, converted "
              "value, position) at every conversion wrapper", floor=4)
+    run.rule("C08.R9", "errors the matcher raises about the current line "
+             "carry no position or this line's position", floor=2)
+    run.rule("C08.R8", "the text whose lines are counted is the resource "
+             "text as read", floor=1)
+    run.rule("C08.R7", "no handler of the parser overwrites the position of "
+             "an error located in a nested resource or by a handler below",
+             floor=1)
     run.rule("C08.R6", "handlers around section end / key-value / "
              "substitution == reference, for both section spellings",
              floor=4)
@@ -100,6 +107,35 @@ def run(ctx):
     run.extra["listed_not_armed"] = listed[:40]
     run.analysed["escape_items_at_parse"] = len(esc)
 
+    # ------------------------------------------------------------------ R7
+    _no_overwrite(ctx, ef)
+
+    # ------------------------------------------------------------------ R8
+    # the parser counts lines in exactly the text of the resource: what
+    # openResource wraps is what was read (decoded), nothing re-split or
+    # re-joined on the way
+    from rules import c18
+    BL = "ZConfig.loader.BaseLoader"
+    orf = m.fn(BL + ".openResource")
+    r = X.compare(P, orf, X.spec_method(P, "ref_url.py", "openResource", BL),
+                  independent=c18._char_observation)
+    _verdict(run, "C08.R8", orf, "resource text handed to the parser "
+             "unmodified", r, m)
+
+    # ------------------------------------------------------------------ R9
+    # what the matcher raises about the line being added: either without a
+    # position (the parser's handler fills in the current line) or with the
+    # position handed in for this line -- never the position of a value
+    # stored earlier
+    from rules.common import crosscheck
+    MT = "ZConfig.matcher.BaseMatcher"
+    crosscheck(ctx, "C08.R9", MT + ".addValue", "ref_matcher.py", "addValue",
+               MT, "errors about the line being added: class and position "
+               "arguments", outcome_norm=_with_raise_args)
+    crosscheck(ctx, "C08.R9", MT + ".addSection", "ref_matcher.py",
+               "addSection", MT, "errors about the section being added: "
+               "class and position arguments", outcome_norm=_with_raise_args)
+
     # ------------------------------------------------------------------ R2
     for live, ref, what in (("nextline", "nextline", "line counter"),
                             ("__init__", "init", "initial state"),
@@ -148,6 +184,96 @@ def run(ctx):
             continue
         r = X.compare(P, lf, X.spec_method(P, REF, ref, PC))
         _verdict(run, "C08.R6", lf, what, r, m)
+
+
+POSITION_ATTRS = ("lineno", "url")
+
+
+def _unconditional_position_stores(h):
+    """Stores to <exc>.lineno / <exc>.url in a handler body that are not
+    under a test mentioning the same attribute of the exception (the fix-up
+    idiom `if e.lineno < 0:` / `if not e.url:`)."""
+    out = []
+    if not h.name:
+        return out
+
+    def walk(stmts, guarded):
+        for st in stmts:
+            if isinstance(st, ast.If):
+                g = set(guarded)
+                for n in ast.walk(st.test):
+                    if isinstance(n, ast.Attribute) and isinstance(
+                            n.value, ast.Name) and n.value.id == h.name:
+                        g.add(n.attr)
+                    if isinstance(n, ast.Call) and src(n.func) == "getattr" \
+                            and len(n.args) >= 2 and src(n.args[0]) == h.name \
+                            and isinstance(n.args[1], ast.Constant):
+                        g.add(n.args[1].value)
+                walk(st.body, g)
+                walk(st.orelse, g)
+            elif isinstance(st, ast.Assign):
+                for t in st.targets:
+                    if isinstance(t, ast.Attribute) and isinstance(
+                            t.value, ast.Name) and t.value.id == h.name \
+                            and t.attr in POSITION_ATTRS \
+                            and t.attr not in guarded:
+                        out.append(st)
+            elif isinstance(st, (ast.With, ast.Try, ast.For, ast.While)):
+                walk(getattr(st, "body", []), guarded)
+    walk(h.body, set())
+    return out
+
+
+def _no_overwrite(ctx, ef):
+    """C08.R7: a handler of the parser that sets the position of a caught
+    error without testing that it has none must only catch errors that cannot
+    carry one yet: not errors already located by a handler below, and not
+    errors that come up through a nested resource's parser."""
+    run, m = ctx.run, ctx.model
+    n = 0
+    for ident, logs in sorted(ef.handler_log.items(),
+                              key=lambda kv: (kv[0][0], str(kv[0][1]))):
+        fi = m.functions.get(ident[0])
+        if fi is None or fi.module.name != "ZConfig.cfgparser":
+            continue
+        for log in logs:
+            h = log["handler"]
+            stores = _unconditional_position_stores(h)
+            if not stores:
+                continue
+            n += 1
+            bad = None
+            for k, info in log["caught"].items():
+                if not ef.is_sub(k[0], CFGERR):
+                    continue
+                if set(k[2]) & set(POSITION_ATTRS):
+                    bad = (k, ["already located by a handler below "
+                               "(sets %s)" % ",".join(k[2])])
+                    break
+                via = info.get("via")
+                if via is None:
+                    continue
+                cid, line, k2 = via
+                cf = m.functions.get(cid[0])
+                chain = ef.chain(cf, k2, cid[1]) if cf is not None else []
+                if any(".parse:" in c or "._parse_resource" in c
+                       for c in chain):
+                    bad = (k, ["%s:%s calls %s" % (fi.qualname, line, cid[0])]
+                           + chain)
+                    break
+            run.check(bad is None, "C08.R7", fi.qualname,
+                      "handler at line %d: %s" % (
+                          h.lineno, "; ".join(src(s) for s in stores)),
+                      "sets the position unconditionally, and every error it "
+                      "catches (%d kinds) is raised below without a position "
+                      "and outside any nested resource" % len(log["caught"]),
+                      "overwrites the position of an error that was located "
+                      "in a nested resource (%s): the error then names the "
+                      "including line instead of the culprit line"
+                      % (bad[0][0] if bad else ""),
+                      loc=m.loc(fi, h),
+                      witness={"chain": bad[1]} if bad else None)
+    return n
 
 
 def _conversion_wrappers(ctx):
